@@ -455,7 +455,7 @@ package main
 //@   property C19 C17 C10
 //@   hooks fs linkrun linker
 //@   maxpaths 4000
-//@   requires !lockHeld && !everLocked && unlocks == 0 && !built && !stamped && !linkPatched && !anySelected && !dbgMade && !dbgMarked
+//@   requires !lockHeld && !everLocked && unlocks == 0 && !built && !stamped && !linkPatched && !anySelected && !dbgMade && !dbgMarked && !revWasCall
 //@   ensures @lock-released-once-after-the-link: linkPatched ==> !lockHeld && unlocks == 1
 //@   ensures @no-lock-leak: !lockHeld
 //@   ensures @temp-dir-removed-on-every-exit: [C19] tempMade && !old(tempMade) ==> removed[tempDir]
@@ -672,13 +672,16 @@ package main
 //@     invariant rcChanged == (entry(rcChanged) || modified)
 //@ end
 
+//@ ghost revLenBefore int
+//@ ghost revWasCall bool
+
 //@ func commandReverse
 //@   property C04 C13 C19
 //@   spec paths.smt2
 //@   hooks revstream revkey fs
 //@   maxpaths 4000
 //@   skip safety
-//@   requires !anySelected && !dbgMade && !dbgMarked
+//@   requires !anySelected && !dbgMade && !dbgMarked && !revWasCall
 //@   unclaimed hashWithPackage/requires because the names come from go list output and from parsed declarations; that those are non-empty is an invariant of go/parser and cmd/go, not of this function
 //@   unclaimed hashWithStruct/requires because the field objects come from go/types and the content ID from the shared cache written by the parent process
 //@   case_calls *ast.FuncDecl: addHashedWithPackage
@@ -694,7 +697,10 @@ package main
 //@   loop 2
 //@     invariant len(replaces) % 2 == 0
 //@   loop 3
+//@     iter revLenBefore = len(replaces)
+//@     iter revWasCall = dyntypeis(node, *ast.CallExpr)
 //@     invariant len(replaces) % 2 == 0
+//@     invariant @every-call-expression-the-build-marks-gets-its-two-position-pairs: [C04] revWasCall ==> len(replaces) == revLenBefore + 4
 //@   loop 4
 //@     invariant len(replaces) % 2 == 0
 //@   loop 5
